@@ -424,8 +424,59 @@ func (u *Unit) applyContract(fr *frame, st *State, callee *ssa.Function, c *Cont
 			}
 		}
 	}
+	// Inside the body of a binder (forall/exists/sum) with arguments that mention bound variables the results are
+	// FUNCTIONS of those variables (a plain fresh constant would denote one value for all instances - unsound when
+	// the quantified formula is assumed), and the contract facts are asserted universally: forall vars. pre ==> ensures.
+	var qv []Term
+	if u.ctx.inQuant > 0 {
+		seen := map[string]bool{}
+		var names []string
+		for k := range params {
+			names = append(names, k)
+		}
+		sort.Strings(names)
+		for _, k := range names {
+			for _, sym := range qvarRe.FindAllString(describeValue(params[k]), -1) {
+				if srt, ok := u.ctx.qvars[sym]; ok && !seen[sym] {
+					seen[sym] = true
+					qv = append(qv, Term{sym, srt})
+				}
+			}
+		}
+	}
+	skolem := func(t types.Type) (Value, bool) {
+		if len(qv) == 0 {
+			return nil, false
+		}
+		rs := scalarSort(t)
+		if rs == "" || isOpaqueStructLike(t) {
+			return nil, false
+		}
+		var as []string
+		for _, v := range qv {
+			as = append(as, v.Sort)
+		}
+		u.ctx.freshN++
+		f := u.ctx.Fun(fmt.Sprintf("res_%s!%d", sanitize(name), u.ctx.freshN), as, rs)
+		return Sc{app(f, rs, qv...), t}, true
+	}
 	if rvals != nil {
 		// same pure callee, same arguments, same heap: same results (see pureMemoKey)
+	} else if tu, ok := resT.(*types.Tuple); ok && len(qv) > 0 {
+		for i := 0; i < tu.Len(); i++ {
+			if v, ok := skolem(tu.At(i).Type()); ok {
+				rvals = append(rvals, v)
+			} else {
+				u.unsupported("result of contracted call " + name + " under a binder with bound-variable arguments is not a scalar: over-approximated by one value")
+				rvals = append(rvals, u.freshValue(tu.At(i).Type(), "res_"+sanitize(name)))
+			}
+		}
+		if len(rvals) > 0 {
+			res = TupleV(rvals)
+		}
+	} else if v, ok := skolemIf(resT, len(qv) > 0, skolem); ok {
+		res = v
+		rvals = []Value{res}
 	} else if tu, ok := resT.(*types.Tuple); ok {
 		for i := 0; i < tu.Len(); i++ {
 			if c.FreshResults[i] && scalarSort(tu.At(i).Type()) == SInt && isPointerLike(tu.At(i).Type()) {
@@ -467,11 +518,54 @@ func (u *Unit) applyContract(fr *frame, st *State, callee *ssa.Function, c *Cont
 		post.vars[k] = v
 	}
 	bindResults(post.vars, callee, rvals)
+	if len(qv) > 0 {
+		var pres []Term
+		for _, rq := range c.Requires {
+			pres = append(pres, env.evalBool(rq.Expr))
+		}
+		var decls []string
+		for _, v := range qv {
+			decls = append(decls, fmt.Sprintf("(%s %s)", v.S, v.Sort))
+		}
+		var pats []string
+		for _, rv := range rvals {
+			if sc, ok := rv.(Sc); ok && strings.HasPrefix(sc.T.S, "(res_") {
+				pats = append(pats, sc.T.S)
+			}
+		}
+		for _, en := range c.Ensures {
+			t := Implies(And(append([]Term{st.G}, pres...)...), post.evalBool(en.Expr))
+			if t.S == "true" {
+				continue
+			}
+			body := t.S
+			if len(pats) > 0 {
+				body = fmt.Sprintf("(! %s :pattern (%s))", t.S, strings.Join(pats, " "))
+			}
+			u.ctx.AssertAlways(Term{fmt.Sprintf("(forall (%s) %s)", strings.Join(decls, " "), body), SBool}, "ensures of "+name+" (under a binder, universally closed): "+en.Text)
+		}
+		return res
+	}
 	for _, en := range c.Ensures {
 		t := post.evalBool(en.Expr)
 		u.assume(st, t, "ensures of "+name+": "+en.Text)
 	}
 	return res
+}
+
+func skolemIf(t types.Type, on bool, mk func(types.Type) (Value, bool)) (Value, bool) {
+	if !on || t == nil {
+		return nil, false
+	}
+	if _, isTuple := t.(*types.Tuple); isTuple {
+		return nil, false
+	}
+	return mk(t)
+}
+
+// isOpaqueStructLike: types whose values are not a single SMT scalar in the engine's model.
+func isOpaqueStructLike(t types.Type) bool {
+	return isStructType(t) || isSliceType(t) || isInterfaceType(t)
 }
 
 func sanitize(s string) string {
